@@ -161,6 +161,10 @@ def namespace_history(draw, n, max_extra=3):
         alive = [i for i in order if i not in removed]
         if alive:
             hist["readd"] = list(draw(st.lists(st.sampled_from(alive), min_size=1, max_size=2, unique=True)))
+    if draw(st.integers(0, 3)) == 0:
+        # every bit is looked up before the removals, and the namespace finally used is a shallow copy of the one built
+        # (TaxonNamespace(other) / copy.copy: same Taxon objects, same bits)
+        hist["copy"] = draw(st.sampled_from(["ctor", "copy"]))
     return hist
 
 
@@ -187,6 +191,9 @@ def build_namespace(hist, labels=None, **kw):
         ns.add_taxon(t)
         taxa[idx] = t
         bits[idx] = acc
+    if hist.get("copy"):
+        for t in list(ns):
+            ns.taxon_bitmask(t)
     for idx in hist["removed"]:
         ns.remove_taxon(taxa[idx])
         del taxa[idx]
@@ -205,6 +212,11 @@ def build_namespace(hist, labels=None, **kw):
         ns.sort(reverse=True)
     elif hist["sort"] == "reverse":
         ns.reverse()
+    if hist.get("copy") == "ctor":
+        ns = dendropy.TaxonNamespace(ns)
+    elif hist.get("copy") == "copy":
+        import copy as _copy
+        ns = _copy.copy(ns)
     return ns, taxa, bits
 
 
